@@ -198,7 +198,8 @@ void explore_counters(Ctx &ctx) {
 // ------------------------------------------------------------------ IETF counter overflow must hit the misuse handler
 struct MisuseCase {
     uint64_t ic; size_t len; unsigned long mask;
-    KV kv() const { KV k; k.s("kind", "ietf_misuse").u("ic", ic).u("len", len).u("mask", mask); return k; }
+    int form = 0;      // 0: xor_ic on real buffers; 1: crypto_stream_chacha20_ietf, 2: _ietf_xor, 3: _ietf_xor_ic with a length claim beyond 2^38 bytes (tiny real buffers)
+    KV kv() const { KV k; k.s("kind", "ietf_misuse").u("ic", ic).u("len", len).u("mask", mask).u("form", form); return k; }
 };
 void misuse_exit(void) { _exit(42); }
 bool run_misuse(const MisuseCase &c, std::string &msg) {
@@ -208,6 +209,14 @@ bool run_misuse(const MisuseCase &c, std::string &msg) {
         inflight().active = false;
         sodium_set_misuse_handler(misuse_exit);
         set_mask(c.mask);
+        if (c.form != 0) {
+            // the claimed length cannot be backed by memory: a library that does not refuse starts writing and walks off the 4 KiB buffers
+            static unsigned char sm[4096], so[4096]; Bytes key(32, 1), nonce(12, 2); int r;
+            if (c.form == 1) r = crypto_stream_chacha20_ietf(so, c.len, nonce.data(), key.data());
+            else if (c.form == 2) r = crypto_stream_chacha20_ietf_xor(so, sm, c.len, nonce.data(), key.data());
+            else r = crypto_stream_chacha20_ietf_xor_ic(so, sm, c.len, nonce.data(), (uint32_t) c.ic, key.data());
+            _exit(r == 0 ? 0 : 7);
+        }
         Bytes key(32, 1), nonce(12, 2), m(c.len, 3), out(c.len);
         int r = crypto_stream_chacha20_ietf_xor_ic(out.data(), m.data(), c.len, nonce.data(), (uint32_t) c.ic, key.data());
         _exit(r == 0 ? 0 : 7);
@@ -215,12 +224,21 @@ bool run_misuse(const MisuseCase &c, std::string &msg) {
     int st = 0; waitpid(pid, &st, 0);
     if (WIFEXITED(st) && WEXITSTATUS(st) == 42) return true;
     char b[200];
-    snprintf(b, sizeof b, "crypto_stream_chacha20_ietf_xor_ic(ic=%llu, len=%zu) would pass block counter 2^32 but was not refused via the misuse handler (child status 0x%x)", (unsigned long long) c.ic, c.len, st);
+    snprintf(b, sizeof b, "%s(ic=%llu, len=%zu) would pass block counter 2^32 but was not refused via the misuse handler (child status 0x%x)", c.form == 1 ? "crypto_stream_chacha20_ietf" : c.form == 2 ? "crypto_stream_chacha20_ietf_xor" : "crypto_stream_chacha20_ietf_xor_ic", (unsigned long long) c.ic, c.len, st);
     msg = b; return false;
 }
 void explore_misuse(Ctx &ctx) {
     auto masks = masks_for_streams();
     uint64_t idx = 0;
+    // length claims beyond the 2^38-byte IETF maximum, through all three entry points
+    const uint64_t MAXB = 64ULL << 32;
+    for (int form = 1; form <= 3; form++)
+        for (uint64_t over : { 1ULL, 2ULL, 63ULL, 64ULL, 65ULL, 1ULL << 20, 1ULL << 40 }) {
+            if (!ctx.mine(idx++)) continue;
+            MisuseCase c{ 0, (size_t) (MAXB + over), masks[(size_t) (over + (uint64_t) form) % masks.size()] }; c.form = form;
+            exec_case(ctx, c, run_misuse, mix64(mix64(form, over), 0x1e7f), true);
+            if (form == 3) { MisuseCase d{ over > 1000 ? 1000 : over, (size_t) (MAXB - 63), masks[0] }; d.form = 3; exec_case(ctx, d, run_misuse, mix64(mix64(form, over), 0x1e80), true); }   // fits by length, not from this counter
+        }
     for (size_t len : { 1u, 64u, 65u, 128u, 129u, 500u, 1024u, 4096u })
         for (uint64_t over : { 1u, 2u, 17u }) {
             uint64_t blocks = (len + 63) / 64, ic = 0x100000000ULL - blocks + over;
@@ -266,7 +284,7 @@ void explore_core(Ctx &ctx) {
 }
 
 bool replay(const KV &k, std::string &msg) {
-    if (k.gs("kind") == "ietf_misuse") { MisuseCase c{ k.gu("ic"), (size_t) k.gu("len"), (unsigned long) k.gu("mask") }; return run_misuse(c, msg); }
+    if (k.gs("kind") == "ietf_misuse") { MisuseCase c{ k.gu("ic"), (size_t) k.gu("len"), (unsigned long) k.gu("mask") }; c.form = k.has("form") ? (int) k.gu("form") : 0; return run_misuse(c, msg); }
     if (k.gs("kind") == "core") { CoreCase c{ (int) k.gu("which"), k.gb("in"), k.gb("key"), k.gb("const"), k.gu("use_const") != 0 }; return run_core(c, msg); }
     Case c = Case::from(k); return run(c, msg);
 }
